@@ -41,6 +41,11 @@ pub enum Op {
     /// side: 0 Mass, 1 UpdateMu, 2 SetMuToNone, 3 SetMassToNone, 4 SetMassAndMuToNone
     SetForceMax { unit: usize, f: f64, side: u8 },
     Crash { fmt: Fmt },
+    /// locomotives carrying redundant mass data: the mass of a component INSIDE the locomotive (battery of a
+    /// battery-electric unit, engine of a conventional one) changes by `delta` kg through the component's own
+    /// accepted setter - the locomotive's derived mass moves with it, and until the locomotive is re-synchronised
+    /// its stored mass / force_max no longer agree with it
+    InnerCompMass { unit: usize, delta: f64 },
 }
 
 #[derive(Serialize, Deserialize, Clone, Debug)]
@@ -97,6 +102,15 @@ pub fn generate(rng: &mut Rng, _focus: &str, _thorough: bool) -> Case {
             }
         };
         ops.push(op);
+    }
+    // a component inside the locomotive changes, then (mostly) the locomotive is re-synchronised
+    if matches!(target, Target::Loco { derived: true, .. }) && rng.chance(0.5) {
+        let at = rng.usize(0, ops.len());
+        ops.insert(at, Op::InnerCompMass { unit: 0, delta: *rng.pick(&[-4000.0, -1500.0, 2500.0, 7500.0]) });
+        if rng.chance(0.75) {
+            let new = if rng.chance(0.6) { None } else { Some(*rng.pick(&masses)) };
+            ops.insert((at + 1 + rng.usize(0, 1)).min(ops.len()), Op::SetMass { unit: 0, new, side: 0 });
+        }
     }
     Case { target, init_mass, init_spec, init_mu, ops, hash_seed: rng.next() }
 }
@@ -391,7 +405,8 @@ fn check_loco(ctx: &mut Ctx, what: &str, l: &Locomotive, m: &LocoModel) {
         (Err(()), Ok(got)) => ctx.violate("C20", "mass_algebra", "inconsistent mass is not reported", format!("{what}: mass() = {got:?} although the reference has no consistent mass")),
         _ => {}
     }
-    if m.force_consistent() && m.derived != Derived::Broken {
+    // (mu() and force_max() look at the mass: while stored mass and the sum of the parts disagree they may refuse)
+    if m.force_consistent() && m.derived != Derived::Broken && m.mass_get().is_ok() {
         match (&gmu, &gf) {
             (Ok(mu), Ok(f)) => {
                 if !opt_eq(*mu, m.mu) {
@@ -614,6 +629,44 @@ pub fn execute(case: &Case, ctx: &mut Ctx) {
                     loco_update(ctx, &mut obj, u, &mut locos, want, k, op, |l| l.set_mass(new.map(|v| v * uc::KG), side_mass(*side)));
                 }
             },
+            Op::InnerCompMass { unit, delta } => {
+                let u = (*unit).min(locos.len().saturating_sub(1));
+                let l: Option<&mut Locomotive> = match &mut obj {
+                    Obj::Loco(l) => Some(l),
+                    Obj::Con(c) => c.loco_vec.get_mut(u),
+                    _ => None,
+                };
+                if let (Some(l), Some(Derived::Some(d))) = (l, locos.get(u).map(|m| m.derived.clone())) {
+                    // through the component's own setter (Intensive: the component stays consistent in itself)
+                    let r: Option<anyhow::Result<()>> = match &mut l.loco_type {
+                        PowertrainType::BatteryElectricLoco(b) => match b.res.mass() {
+                            Ok(Some(m)) if m.value + delta > 100.0 => Some(b.res.set_mass(Some((m.value + delta) * uc::KG), MassSideEffect::Intensive)),
+                            _ => None,
+                        },
+                        PowertrainType::ConventionalLoco(c) => match c.fc.mass() {
+                            Ok(Some(m)) if m.value + delta > 100.0 => Some(c.fc.set_mass(Some((m.value + delta) * uc::KG), MassSideEffect::Intensive)),
+                            _ => None,
+                        },
+                        _ => None,
+                    };
+                    if let Some(Ok(())) = r {
+                        locos[u].derived = Derived::Some(d + delta);
+                        ctx.hit("fault.update.component_inside_locomotive");
+                        // the locomotive is now out of step with its own parts until it is re-synchronised: what must
+                        // hold meanwhile is only that it does not REPORT a mass its parts contradict
+                        let what = format!("after op {k} {op:?}");
+                        match (locos[u].mass_get(), l.mass()) {
+                            (Err(()), Ok(got)) => ctx.violate("C20", "mass_algebra", "inconsistent mass is not reported", format!("{what}: mass() = {:?} although the stored mass and the sum of the parts disagree", got.map(|x| x.value))),
+                            (Ok(want), Ok(got)) => {
+                                if !opt_eq(got.map(|x| x.value), want) {
+                                    ctx.violate("C20", "mass_algebra", "locomotive mass as the side-effect option states", format!("{what}: mass() = {:?}, reference {want:?}", got.map(|x| x.value)));
+                                }
+                            }
+                            _ => {}
+                        }
+                    }
+                }
+            }
             Op::SetMu { unit, mu, side } => {
                 if let Obj::Loco(_) | Obj::Con(_) = obj {
                     let u = (*unit).min(locos.len() - 1);
